@@ -41,8 +41,8 @@ def _apply(op, r, rcls, rng):
 
 
 def correspondence(ctx):
-    walks = 600 if ctx.thorough else 90
-    maxlen = 30 if ctx.thorough else 10
+    walks = 3000 if ctx.thorough else 90
+    maxlen = 40 if ctx.thorough else 10
     for name in S.ALL:
         rcls = S.rclass(name)
         if rcls is None or RANGE_CLASS_BY_SCHEMES.get(rcls.scheme) is not rcls:
